@@ -162,9 +162,11 @@ void seq(void) {
   check_all();
   unsigned long want = n < 1 ? 1 : n > MAXB ? MAXB : n;
   rt_assert(ht->size >= want && ht->size < 2 * want + (want == 0), "resize reaches the requested size (rounded to a power of two, clamped to [1, max])");
+#ifndef ONE_RESIZE
   unsigned long n2 = rt_nondet_u64();
   cds_lfht_resize(ht, n2);
   check_all();
+#endif
 }
 #endif
 #if SCEN == 3      /* C08(b): parameter normalisation of cds_lfht_new for arbitrary arguments */
